@@ -93,13 +93,13 @@ def exception_key(e):
     return {"exc": type(e).__name__, "func": func}, chain
 
 
-def canon(v, depth=0):
+def canon(v, depth=0, private=True):
     """canonical JSON-able dump used for frozen-input comparison (C09) and instance-state comparison (C08)"""
     from pydantic import BaseModel
     if depth > 8:
         return "<deep>"
     if isinstance(v, np.ndarray):
-        return ["nd", canon(v.tolist(), depth + 1)]
+        return ["nd", canon(v.tolist(), depth + 1, private)]
     if isinstance(v, (np.floating,)):
         return canon(float(v))
     if isinstance(v, (np.integer,)):
@@ -115,25 +115,25 @@ def canon(v, depth=0):
     if isinstance(v, (int, str, bool, type(None))):
         return v
     if isinstance(v, BaseModel):
-        d = {k: canon(getattr(v, k), depth + 1) for k in type(v).model_fields}
-        priv = getattr(v, "__pydantic_private__", None) or {}
+        d = {k: canon(getattr(v, k), depth + 1, private) for k in type(v).model_fields}
+        priv = (getattr(v, "__pydantic_private__", None) or {}) if private else {}
         for k in sorted(priv):
             if k == "_label_encoder":
-                d[k] = canon(vars(priv[k]), depth + 1)
+                d[k] = canon(vars(priv[k]), depth + 1, private)
             else:
-                d[k] = canon(priv[k], depth + 1)
+                d[k] = canon(priv[k], depth + 1, private)
         return {"__model__": type(v).__name__, **d}
     if isinstance(v, dict):
-        return {str(k): canon(x, depth + 1) for k, x in sorted(v.items(), key=lambda kv: str(kv[0]))}
+        return {str(k): canon(x, depth + 1, private) for k, x in sorted(v.items(), key=lambda kv: str(kv[0]))}
     if isinstance(v, (list, tuple)):
-        return [canon(x, depth + 1) for x in v]
+        return [canon(x, depth + 1, private) for x in v]
     if isinstance(v, (set, frozenset)):
         return sorted(repr(x) for x in v)
     import enum
     if isinstance(v, enum.Enum):
         return f"{type(v).__name__}.{v.name}"
     if hasattr(v, "__dict__"):
-        return {"__obj__": type(v).__name__, **canon(vars(v), depth + 1)}
+        return {"__obj__": type(v).__name__, **canon(vars(v), depth + 1, private)}
     return repr(v)
 
 
@@ -228,8 +228,8 @@ def run_case(case, cpu_budget=120.0, record_args=False, delay=None, workdir=None
         import json as _json
         opt.set_config_parameters(_json.loads(_json.dumps(case["cfg"])))
         cfg = opt.configuration
-    before_cfg = canon(cfg)
-    before_task = canon(task)
+    before_cfg = canon(cfg, private=False)
+    before_task = canon(task, private=False)
     old = signal.signal(signal.SIGVTALRM, _on_alarm)
     signal.setitimer(signal.ITIMER_VIRTUAL, cpu_budget)
     hooks.CUR.mon = mon
@@ -286,8 +286,8 @@ def _apply_oracles(obs, case, spec, flat, cfg, task, before_cfg, before_task, mo
     st = obs["stats"]
     st["steps"] = mon.steps
     # ---- C09: frozen inputs (also on the exception path)
-    after_cfg = canon(cfg)
-    after_task = canon(task)
+    after_cfg = canon(cfg, private=False)
+    after_task = canon(task, private=False)
     d1 = diff_fields(before_cfg, after_cfg, "config.")
     d2 = diff_fields(before_task, after_task, "task.")
     st["c09_fields_compared"] = len(before_cfg) + len(before_task)
